@@ -127,13 +127,14 @@ Definition tr_ink (t : trafo) (req : list chan) : option (list chan) :=
       else if cdisj req outs then Some req else Some (cunion fwd ins)
   end.
 (* keys of Transformation.__call__(data): LinearTransformation forwards when none of its inputs is present, raises
-   KeyError('Invalid input channels') when only some are *)
+   KeyError('Invalid input channels') when only some are.  (A LinearTransformation WITHOUT input channels cannot be
+   called at all - numpy refuses to stack an empty list - and is read like get_output_channels here.) *)
 Definition tr_callk (t : trafo) (data : list chan) : option (list chan) :=
   match t with
   | TOffset _ | TScale _ => Some data
   | TParallel m => Some (cunion data (map fst m))
   | TLinear ins outs _ =>
-      if cdisj data ins then Some data
+      if match ins with [] => false | _ :: _ => cdisj data ins end then Some data
       else if csub ins data then Some (cunion (cdiff data ins) outs) else None
   end.
 Fixpoint chain_outk (G : list trafo) (cs : list chan) : option (list chan) :=
@@ -261,9 +262,10 @@ Definition from_transformation (w : wf) (G : list trafo) : wf :=
       match chain_callk G (map fst vals) with
       | None => WTrans w G    (* transformation(0., constant_values) raises KeyError: kept as a waveform whose use
                                  raises (wf_raises below) *)
-      | Some _ =>
+      | Some ks =>        (* the keys the call returns: a LinearTransformation none of whose inputs is there forwards
+                             everything and adds nothing *)
           let f := fun c => match alookup c vals with Some v => v | None => None end in
-          mk_const (wdur w) (map (fun c => (c, chain_apply G f c)) (chain_out G (map fst vals)))
+          mk_const (wdur w) (map (fun c => (c, chain_apply G f c)) ks)
       end
   end.
 Definition with_global (w : wf) (G : list trafo) : wf :=
